@@ -315,6 +315,10 @@ def marshalProtected (h : Hdrs) : Out Bytes :=
   | some b => .ok b
   | none => .err .other
 
+/-- `Headers.MarshalUnprotected`: `RawUnprotected` verbatim when non-empty, else
+    `UnprotectedHeader.MarshalCBOR`, whose fresh bytes must pass
+    `decModeWithTagsForbidden.Wellformed` (headers.go:256) — both inside `encodeBucket`, which
+    nested `*Countersignature` values go through as well. -/
 def marshalUnprotected (h : Hdrs) : Out Bytes :=
   if !GoVal.modelledPairs h.u then .unmodelled else
   match encodeBucket encCfg false h.rawU h.u with
@@ -547,6 +551,8 @@ def countersignToBeSigned (abbreviated : Bool) (target : Parent) (signProtected 
     match target with
     | .sign m =>
       if m.sigs.isEmpty then .err .other else
+      -- every signer slot must hold a signature (a nil `*Signature` has none either)
+      if m.sigs.any (fun s => blen s.sig = 0) then .err .other else
       (match marshalProtected m.h with
        | .ok bp => if m.payload.isNone then .err .missingPayload else .ok (bp, m.payload, none)
        | .err e => .err e | .panic => .panic | .unmodelled => .unmodelled)
